@@ -884,12 +884,12 @@ func (o ownNames) MoveNext() bool { return o.Iter > 0 }
 
 func ByOwnNames(a, b int) int {
 	seq := ownNames{Iter: a, Yield: func(x int) int { return x + b }}
-	co := seq.Yield(seq.Iter)
+	sum := seq.Yield(seq.Iter)
 	if seq.MoveNext() {
-		co += seq.Current()
+		sum += seq.Current()
 	}
 	const doc = "co.Iter[int] and Yield(1) in a string stay what they are"
-	return vrt.V(%[16]d, co+len(doc))
+	return vrt.V(%[16]d, sum+len(doc))
 }
 
 // "time" is mentioned in this file ONLY by the signature of a forwarding literal; its callee
